@@ -52,6 +52,7 @@ type Map struct {
 type Chan struct {
 	cap    int
 	buf    []Value
+	sendq  []Value // values of goroutines blocked in a send on an unbuffered (or full) channel
 	closed bool
 }
 
